@@ -46,6 +46,7 @@ Record sys := {
   y_ch : N -> ychan;
   y_outbuf : list (N * call);    (* the I/O thread's out-buffer, whole frames *)
   y_outwire : list (N * call);   (* written, not yet read by the server *)
+  y_seen : list (N * call);      (* ghost: every frame the server has read so far, in order *)
   y_inwire : list (N * N);       (* server -> client: (channel, reply) *)
   y_fail : bool;                 (* a reply found its queue full: FrameUnexpected, the loop ends *)
   y_dead : bool }.               (* the I/O thread has ended (EOF, I/O error, missed heartbeats, a close, ...)
@@ -62,7 +63,7 @@ Inductive act :=
 | ADie.                          (* the I/O thread ends, for whatever reason, at any moment *)
 
 Definition with_ch (s : sys) (n : N) (c : ychan) : sys :=
-  {| y_ch := yupd (y_ch s) n c; y_outbuf := y_outbuf s; y_outwire := y_outwire s;
+  {| y_ch := yupd (y_ch s) n c; y_outbuf := y_outbuf s; y_outwire := y_outwire s; y_seen := y_seen s;
      y_inwire := y_inwire s; y_fail := y_fail s; y_dead := y_dead s |}.
 
 Section Step.
@@ -115,12 +116,12 @@ Section Step.
                                      yc_results := yc_results c; yc_mail := skipn k (yc_mail c);
                                      yc_pend := yc_pend c; yc_replyq := yc_replyq c; yc_failed := yc_failed c |};
            y_outbuf := y_outbuf s ++ map (pair n) (firstn k (yc_mail c));
-           y_outwire := y_outwire s; y_inwire := y_inwire s; y_fail := false; y_dead := y_dead s |}
+           y_outwire := y_outwire s; y_seen := y_seen s; y_inwire := y_inwire s; y_fail := false; y_dead := y_dead s |}
     | AWrite k =>
         if y_dead s then s else
         {| y_ch := y_ch s; y_outbuf := skipn k (y_outbuf s);
            y_outwire := y_outwire s ++ firstn k (y_outbuf s);
-           y_inwire := y_inwire s; y_fail := false; y_dead := y_dead s |}
+           y_seen := y_seen s; y_inwire := y_inwire s; y_fail := false; y_dead := y_dead s |}
     | ASrvRead =>
         match y_outwire s with
         | [] => s
@@ -131,7 +132,7 @@ Section Step.
                                               yc_results := yc_results c; yc_mail := yc_mail c;
                                               yc_pend := yc_pend c ++ [snd x]; yc_replyq := yc_replyq c; yc_failed := yc_failed c |}
                        else y_ch s;
-               y_outbuf := y_outbuf s; y_outwire := rest; y_inwire := y_inwire s; y_fail := false; y_dead := y_dead s |}
+               y_outbuf := y_outbuf s; y_outwire := rest; y_seen := y_seen s ++ [(n, x)]; y_inwire := y_inwire s; y_fail := false; y_dead := y_dead s |}
         end
     | ASrvAnswer n =>
         let c := y_ch s n in
@@ -142,7 +143,7 @@ Section Step.
                                          yc_results := yc_results c; yc_mail := yc_mail c;
                                          yc_pend := rest; yc_replyq := yc_replyq c; yc_failed := yc_failed c |};
                y_outbuf := y_outbuf s; y_outwire := y_outwire s;
-               y_inwire := y_inwire s ++ [(n, answer n r)]; y_fail := false; y_dead := y_dead s |}
+               y_seen := y_seen s; y_inwire := y_inwire s ++ [(n, answer n r)]; y_fail := false; y_dead := y_dead s |}
         end
     | ARead =>
         if y_dead s then s else
@@ -154,14 +155,14 @@ Section Step.
               {| y_ch := yupd (y_ch s) n {| yc_prog := yc_prog c; yc_wait := yc_wait c; yc_issued := yc_issued c;
                                            yc_results := yc_results c; yc_mail := yc_mail c;
                                            yc_pend := yc_pend c; yc_replyq := yc_replyq c ++ [v]; yc_failed := yc_failed c |};
-                 y_outbuf := y_outbuf s; y_outwire := y_outwire s; y_inwire := rest; y_fail := false; y_dead := y_dead s |}
+                 y_outbuf := y_outbuf s; y_outwire := y_outwire s; y_seen := y_seen s; y_inwire := rest; y_fail := false; y_dead := y_dead s |}
             else
               {| y_ch := y_ch s; y_outbuf := y_outbuf s; y_outwire := y_outwire s;
-                 y_inwire := rest; y_fail := true; y_dead := y_dead s |}
+                 y_seen := y_seen s; y_inwire := rest; y_fail := true; y_dead := y_dead s |}
         end
     | ADie =>
         {| y_ch := y_ch s; y_outbuf := y_outbuf s; y_outwire := y_outwire s;
-           y_inwire := y_inwire s; y_fail := false; y_dead := true |}
+           y_seen := y_seen s; y_inwire := y_inwire s; y_fail := false; y_dead := true |}
     end.
 
   Definition yrun (s : sys) (sched : list act) : sys := fold_left ystep sched s.
@@ -173,7 +174,7 @@ Definition new_ychan (prog : list call) : ychan :=
 
 (* every caller with its program, nothing in flight *)
 Definition init_sys (progs : N -> list call) : sys :=
-  {| y_ch := fun n => new_ychan (progs n); y_outbuf := []; y_outwire := []; y_inwire := [];
+  {| y_ch := fun n => new_ychan (progs n); y_outbuf := []; y_outwire := []; y_seen := []; y_inwire := [];
      y_fail := false; y_dead := false |}.
 
 (* everything of channel n that is on its way to the caller, in the order it will arrive:
